@@ -132,6 +132,30 @@ CHECKS["C19"] = (
     "DESIGN.md section 3, C19",
 )
 
+CHECKS["C18"] = (
+    "exploration",
+    "bounded-exhaustive field x candidate enumeration + explicit-state search of union setter histories on the real generated classes",
+    "For every type of the bounded universe the generated Python class is imported and every field receives, through the setter and "
+    "the constructor, every candidate of a boundary alphabet (min, max, min-1, max+1, +-2^70, NumPy scalars, wrong types; arrays of "
+    "length 0, cap, cap+1, cap+7, fixed+-1 as list / ndarray / bytes / str / ragged lists): out-of-range and wrong-length candidates "
+    "must raise ValueError and leave the stored value untouched. For unions ALL histories of <=3 valid/invalid setter events from "
+    "every constructor are executed with the invariant 'exactly one option is set, and it is the expected one'. _MODEL_ is compared "
+    "with the source model, get_model/get_class must round trip, and to_builtin -> update_from_builtin must serialize identically.",
+    "CPython 3.12 + NumPy 2.5; out-of-range ELEMENTS of arrays are not demanded to raise; for wrong-type candidates any exception is accepted.",
+    "DESIGN.md section 3, C18",
+)
+CHECKS["C17"] = (
+    "exploration",
+    "bounded-exhaustive enumeration of ordered option-set pairs; real generator + gcc/g++ -fsyntax-only",
+    "For C all 48x48 ordered pairs of the documented option sets, for C++ a structured space of 476 option sets (every single-option "
+    "difference, full common-option products at two profiles, an allocator sub-lattice, multi-option centre pairs): the support header "
+    "of A is compiled with the type headers of B; equal sets must compile, unequal sets must be rejected by a failing static assertion "
+    "naming a differing option in every type header.",
+    "gcc 12 diagnostics stand for 'the build'; three fixed DSDL types; cetl shorthand excluded (CETL submodule empty); C++ multi-option "
+    "differences are a structured subset.",
+    "DESIGN.md section 3, C17",
+)
+
 ALL = [f"C{i:02d}" for i in range(1, 21)]
 
 
